@@ -50,6 +50,7 @@ HasComp(st) == \E i \in 1..Len(st) : st[i].comp # ""
 MCProgs(st) ==
   { << Op("RM"), Op("RM"), Op("RM") >>,
     << Op("NR"), Op("RA"), Op("NR"), Op("RA"), Op("NR") >>,
+    << Op("NR"), Rc, Op("NR"), Rc, Op("NR"), Rc >>,       \* io.Copy out of the message reader
     << Op("NR"), Op("NR"), Op("NR") >>,
     << Op("NR"), Rd(1), Rd(4096), Rd(4096), Rd(4096), Op("RM"), Op("RM") >>,
     << Op("NR"), Rd(512), Rd(512), Rd(512), Op("NR"), Op("RA") >>,
